@@ -286,8 +286,9 @@ def run(ctx):
     if missing:
         ctx.machinery("conflict families never produced by the enumeration: %s" % missing)
     n_a = len(parts)
-    if not ctx.quick and os.environ.get("VF_C14_ORDERS", "AB") == "AB":
-        parts = parts + enumerate_transforms(ctx, maxops, "B")
+    if not ctx.quick:
+        partsb = enumerate_transforms(ctx, maxops, "B")
+        parts = {"A": parts, "B": partsb}.get(os.environ.get("VF_C14_ORDERS"), parts + partsb)
     if ctx.quick:
         parts = [parts[i] for i in sorted(ctx.rng.sample(range(len(parts)), min(len(parts), 1000)))]
     else:
